@@ -26,6 +26,11 @@ for line in open(sys.argv[1]):
             for r in [x for x in rules.split(',') if x] or ['(violation)']:
                 det.append(r if prop == own else prop + ':' + r)
     own_first = [d for d in det if ':' not in d] + [d for d in det if ':' in d]
+    if meta.get('round') != 4:
+        # earlier rounds are curated by hand: only say when the verdict changed
+        if bool(own_first) != (meta.get('status') == 'detected'):
+            print('CHANGED', sid, meta.get('status'), '->', own_first)
+        continue
     meta['detected_by'] = own_first
     meta['status'] = 'detected' if own_first else 'missed'
     if own_first:
